@@ -30,6 +30,26 @@ fn c4(_word: &str) -> Vec<usize> {
     vec![2, 1]
 }
 
+// custom wrap algorithms (plain `fn` items, as `WrapAlgorithm::Custom` requires); the model has no
+// counterpart: cases using them are decided by the property predicates alone
+fn alg_one_per_line<'a, 'b>(words: &'b [textwrap::core::Word<'a>], _: &'b [usize]) -> Vec<&'b [textwrap::core::Word<'a>]> {
+    if words.is_empty() { vec![words] } else { words.chunks(1).collect() }
+}
+fn alg_blank_then_first_fit<'a, 'b>(words: &'b [textwrap::core::Word<'a>], lw: &'b [usize]) -> Vec<&'b [textwrap::core::Word<'a>]> {
+    let f: Vec<f64> = lw.iter().map(|w| *w as f64).collect();
+    let mut v = vec![&words[0..0]];
+    v.extend(textwrap::wrap_algorithms::wrap_first_fit(words, &f));
+    v
+}
+fn alg_all_on_one<'a, 'b>(words: &'b [textwrap::core::Word<'a>], _: &'b [usize]) -> Vec<&'b [textwrap::core::Word<'a>]> {
+    vec![words]
+}
+fn alg_two_per_line<'a, 'b>(words: &'b [textwrap::core::Word<'a>], _: &'b [usize]) -> Vec<&'b [textwrap::core::Word<'a>]> {
+    if words.is_empty() { vec![words] } else { words.chunks(2).collect() }
+}
+
+pub const CUSTOM_ALGS: &[char] = &['A', 'B', 'C', 'D'];
+
 pub fn splitter_of(name: &str) -> WordSplitter {
     match name {
         "n" => WordSplitter::NoHyphenation,
@@ -83,6 +103,10 @@ impl Opt {
                 short_last_line_penalty: self.pen[3],
                 hyphen_penalty: self.pen[4],
             })),
+            'A' => o.wrap_algorithm(WrapAlgorithm::Custom(alg_one_per_line)),
+            'B' => o.wrap_algorithm(WrapAlgorithm::Custom(alg_blank_then_first_fit)),
+            'C' => o.wrap_algorithm(WrapAlgorithm::Custom(alg_all_on_one)),
+            'D' => o.wrap_algorithm(WrapAlgorithm::Custom(alg_two_per_line)),
             _ => o.wrap_algorithm(WrapAlgorithm::FirstFit),
         };
         o
@@ -116,7 +140,7 @@ impl Opt {
             self.bw,
             if self.sep == 'u' { "UnicodeBreakProperties" } else { "AsciiSpace" },
             match self.splitter { "n" => "NoHyphenation", "h" => "HyphenSplitter", x => x },
-            if self.alg == 'o' { "OptimalFit" } else { "FirstFit" },
+            match self.alg { 'o' => "OptimalFit", 'A' => "Custom(one word per line)", 'B' => "Custom(blank line, then first-fit)", 'C' => "Custom(all on one line)", 'D' => "Custom(two words per line)", _ => "FirstFit" },
             if self.alg == 'o' && self.pen != DEFAULT_PEN { format!("{:?}", self.pen) } else { String::new() },
             if self.crlf { "CRLF" } else { "LF" },
             self.ii,
